@@ -36,7 +36,7 @@ def layers(tier):
 
 
 def floors(tier):
-    return {"triples": 50000, "model_rules_seen": 60, "ruma_error_messages_seen": 35, "allowed": 4000, "rejected": 20000,
+    return {"triples": 50000, "model_rules_seen": 60, "allowed": 4000, "rejected": 20000,
             "_distinct_nontrivial": 30000}
 
 
